@@ -99,7 +99,13 @@ fn draw_writer(rng: &mut Rng) -> (WriterCfg, Vec<u8>) {
     let w = match rng.below(4) {
         0 => WriterCfg::Real,
         1 => WriterCfg::Vec,
-        2 if rng.chance(1, 3) => WriterCfg::Reentrant(rng.range(1, 12) as u8),
+        2 if rng.chance(1, 3) => {
+            if rng.chance(1, 3) {
+                WriterCfg::ReentrantDeep(rng.range(1, 14) as u8, rng.range(2, 4) as u8)
+            } else {
+                WriterCfg::Reentrant(rng.range(1, 12) as u8)
+            }
+        }
         3 if rng.chance(1, 3) => {
             // the patchable tail of a long stream: positions around and far
             // beyond the 16- and 32-bit marks
@@ -162,7 +168,13 @@ fn shrink_case(c: &Case) -> Vec<Case> {
             });
         }
     }
-    if c.writer != WriterCfg::Vec && c.writer != WriterCfg::Real && !matches!(c.writer, WriterCfg::Reentrant(_)) {
+    if let WriterCfg::ReentrantDeep(at, d) = c.writer {
+        out.push(Case {
+            writer: if d > 2 { WriterCfg::ReentrantDeep(at, d - 1) } else { WriterCfg::Reentrant(at) },
+            ..c.clone()
+        });
+    }
+    if c.writer != WriterCfg::Vec && c.writer != WriterCfg::Real && !matches!(c.writer, WriterCfg::Reentrant(_) | WriterCfg::ReentrantDeep(..)) {
         out.push(Case {
             writer: WriterCfg::Vec,
             ..c.clone()
@@ -1432,6 +1444,21 @@ impl Scenario for C07 {
 
 pub struct C09;
 
+/// One complete encode of `v` into a writer of its own whose `at`-th call
+/// performs the next nested encode, `depth` more levels deep.
+fn nested_encode(v: &Value, at: u8, depth: u8) {
+    if let Some(cv) = to_crate(v) {
+        if depth == 0 {
+            let _ = encode_fresh(&cv);
+            return;
+        }
+        let mut w = SimWriter::new(&WriterCfg::Vec, &[0x5A; 3]);
+        let v2 = v.clone();
+        w.reentry = Some((at as u64, Box::new(move || nested_encode(&v2, at, depth - 1))));
+        let _ = encode_into(&cv, &mut w);
+    }
+}
+
 fn exec_c09(case: &Case, obs: &mut Obs) -> Result<(), Failure> {
     // A history is cut into segments at every refused value: whatever a
     // refused encode leaves in its writer is unspecified, so what follows
@@ -1459,18 +1486,17 @@ fn exec_c09(case: &Case, obs: &mut Obs) -> Result<(), Failure> {
             if matches!(v, Value::Avp(_)) { "avp" } else { "message" },
             if case.prefix.is_empty() && i == 0 { "-at-zero" } else { "" }
         );
-        if let WriterCfg::Reentrant(at) = case.writer {
+        let re = match case.writer {
+            WriterCfg::Reentrant(at) => Some((at, 1u8)),
+            WriterCfg::ReentrantDeep(at, depth) => Some((at, depth.max(1))),
+            _ => None,
+        };
+        if let Some((at, depth)) = re {
             // on the at-th writer call of this value, the same value is
-            // encoded once more, completely, into a writer of its own
+            // encoded once more, completely, into a writer of its own -
+            // which, when nested, re-enters in the same way
             let again = v.clone();
-            w.reentry = Some((
-                at as u64,
-                Box::new(move || {
-                    if let Some(cv2) = to_crate(&again) {
-                        let _ = encode_fresh(&cv2);
-                    }
-                }),
-            ));
+            w.reentry = Some((at as u64, Box::new(move || nested_encode(&again, at, depth - 1))));
             obs.count("probe:reentrant-encode");
         }
         if let Err(c) = encode_into(&cv, &mut w) {
